@@ -82,6 +82,8 @@ pub mod util;
 pub use self::pmtiles::PMTiles;
 pub use directory::{Directory, Entry};
 pub use header::{Compression, Header, TileType};
+#[cfg(feature = "verif")]
+pub use tile_manager::VerifSnapshot;
 
 /// The recommended MIME Type for a `PMTiles` archive
 pub const MIME_TYPE: &str = "application/vnd.pmtiles";
